@@ -17,48 +17,16 @@
     its successive Read calls will return ([] = EOF from now on); a Read never
     returns more than asked, the rest of the segment stays for the next Read. *)
 From Coq Require Import List NArith Bool.
+From Tongo Require Import Spec.AdnlSpec.
 Import ListNotations.
 Local Open Scope N_scope.
-
-(* ---------- byte-list helpers ---------- *)
-
-(* first n elements / rest / how many are still missing; counter in N so that
-   a length field of 8 MiB never becomes a unary number *)
-Fixpoint take {A} (n : N) (l : list A) : list A * list A * N :=
-  match l with
-  | [] => ([], [], n)
-  | b :: t =>
-      if n =? 0 then ([], l, 0)
-      else let '(a, rest, m) := take (N.pred n) t in (b :: a, rest, m)
-  end.
-
-(* Go's s[a:b] on a slice that is long enough *)
-Definition slice {A} (a b : nat) (l : list A) : list A := firstn (b - a) (skipn a l).
 
 (* copy(dst[0:n], src) into a zeroed window of n bytes *)
 Definition fit (n : nat) (l : list N) : list N := firstn n (l ++ repeat 0 n).
 
-Fixpoint bytes_eqb (a b : list N) : bool :=
-  match a, b with
-  | [], [] => true
-  | x :: a', y :: b' => (x =? y) && bytes_eqb a' b'
-  | _, _ => false
-  end.
-
-Definition len {A} (l : list A) : N := N.of_nat (length l).
-
-(* binary.LittleEndian.PutUint32 / Uint32 *)
-Definition le32 (n : N) : list N :=
-  [n mod 256; (n / 256) mod 256; (n / 65536) mod 256; (n / 16777216) mod 256].
-
-Definition of_le32 (l : list N) : N :=
-  match l with
-  | [a; b; c; d] => a + 256 * b + 65536 * c + 16777216 * d
-  | _ => 0
-  end.
-
+(* ParsePacket: length < 64 || length > 8<<20 *)
 Definition min_packet_len : N := 64.
-Definition max_packet_len : N := 8388608.   (* 8 << 20 *)
+Definition max_packet_len : N := 8388608.
 
 (* ---------- readers ---------- *)
 
@@ -190,13 +158,15 @@ Section Transport.
   Definition client_tx0 (p : list N) : cstate := init (tx_key p) (tx_nonce p).
   Definition client_rx0 (p : list N) : cstate := init (rx_key p) (rx_nonce p).
 
+  (* encryptedConn.handshake: AES key and CTR nonce protecting the parameters *)
+  Definition hs_key (shared hp : list N) : list N := slice 0 16 shared ++ slice 16 32 hp.
+  Definition hs_nonce (shared hp : list N) : list N := slice 0 4 hp ++ slice 20 32 shared.
+
   (* encryptedConn.handshake: the 256 bytes written first.
      [cpub], [shared] = x25519Keys.public / .shared *)
   Definition handshake_bytes (server_pub params cpub shared : list N) : list N :=
     let hp := H params in
-    let key := slice 0 16 shared ++ slice 16 32 hp in
-    let nonce := slice 0 4 hp ++ slice 20 32 shared in
-    let data := fst (xor_stream (init key nonce) params) in
+    let data := fst (xor_stream (init (hs_key shared hp) (hs_nonce shared hp)) params) in
     fit 32 (address_hash server_pub) ++ fit 32 cpub ++ fit 32 hp ++ fit 160 data.
 
   (* the whole client: handshake written, one packet awaited (ParsePacket on
